@@ -66,6 +66,7 @@ type Obligation struct {
 	WitnessV []string // nondet values in call order
 	PCSize   int
 	Excused  string // known-finding excuse applied
+	MoreWitnesses [][]string // further models of the same violated obligation
 }
 
 type ObserveRec struct {
@@ -101,6 +102,7 @@ type PathResult struct {
 	FeasUnknown int
 	PCText      []string
 	Stubs       []string
+	SampleStatus string // result of the final check-sat of the path condition
 	KnownKeys   []string
 	Rounds      int
 }
@@ -449,6 +451,9 @@ func (m *Machine) Assert(id string, cond *sym.Bool) {
 			vals, err := m.solver.GetValues(m.nondetExprs())
 			if err == nil {
 				ob.WitnessV = vals
+				if ob.WitnessV == nil {
+					ob.WitnessV = []string{} // no symbolic inputs: the empty witness still replays
+				}
 			}
 		} else if r == smt.Unsat {
 			ob.Result = "unsat" // infeasible path
@@ -473,6 +478,7 @@ func (m *Machine) Assert(id string, cond *sym.Bool) {
 	if r == smt.Sat {
 		if vals != nil {
 			ob.WitnessV = vals
+			ob.MoreWitnesses = m.moreModels(vals, 4)
 		} else {
 			ob.Result = "unknown"
 			ob.Excused = "model unreadable"
@@ -515,6 +521,38 @@ func (m *Machine) solveOneshot(extra, id string) (smt.Result, []string) {
 		return r, vals
 	}
 	return r, nil
+}
+
+// moreModels asks the (still loaded) oneshot solver for up to k further models
+// of the violated obligation, each differing from all earlier ones in some
+// nondeterministic input. Float over-approximation means a single model may
+// not be a real execution; several candidates make the native replay robust.
+func (m *Machine) moreModels(first []string, k int) [][]string {
+	var out [][]string
+	prev := first
+	s := m.oneshot
+	for i := 0; i < k; i++ {
+		var diffs []string
+		for j, n := range m.nondets {
+			if j < len(prev) && prev[j] != "" {
+				diffs = append(diffs, "(not (= "+n.Name+" "+prev[j]+"))")
+			}
+		}
+		if len(diffs) == 0 {
+			break
+		}
+		s.Send("(assert (or " + strings.Join(diffs, " ") + "))")
+		if s.Check() != smt.Sat {
+			break
+		}
+		vals, err := s.GetValues(m.nondetExprs())
+		if err != nil {
+			break
+		}
+		out = append(out, vals)
+		prev = vals
+	}
+	return out
 }
 
 // ---------------------------------------------------------------------------
@@ -614,6 +652,7 @@ func (m *Machine) finishSample() {
 	m.solver.Send("(set-option :timeout 5000)")
 	r := m.solver.Check()
 	m.res.Queries++
+	m.res.SampleStatus = r.String()
 	if r == smt.Unsat && m.res.Status == PathOK {
 		m.res.Status = PathInfeasible
 		m.res.Detail = "final PC unsat"
